@@ -66,15 +66,16 @@ class Responder:
         self.n_send = 0
         self.n_recv = 0
 
-    def accept_client_handshake(self, handshake_body: bytes) -> bytes:
-        """`handshake_body` = client's frame body (0x00 || e || tag).
+    def accept_client_handshake(self, handshake_body: bytes, payload: bytes = b"") -> bytes:
+        """`handshake_body` = client's frame body (0x00 || e || tag); `payload` = the handshake payload the
+        responder attaches to its own message (Noise allows any; ESPHome firmware sends none).
 
-        Returns the responder's handshake frame body (0x00 || e || tag).
+        Returns the responder's handshake frame body (0x00 || e || enc(payload) || tag).
         Raises on authentication failure (wrong key / prologue)."""
         if not handshake_body or handshake_body[0] != 0:
             raise ValueError("client handshake frame must start with 0x00")
         self._p.read_message(handshake_body[1:])
-        out = bytes(self._p.write_message())
+        out = bytes(self._p.write_message(payload))
         np = self._p.noise_protocol
         # responder: cipher_state_encrypt = device->client, decrypt = client->device
         self.k_send = bytes(np.cipher_state_encrypt.k)
